@@ -248,3 +248,69 @@ Proof.
     destruct (tr_grows_ep_step y f s I B (Hreg y (or_introl eq_refl))) as [t1 T1].
     exists (t ++ t1), n. rewrite T, T1, app_assoc. split; auto. apply in_or_app; auto.
 Qed.
+
+Lemma read_dispatch_epoll : forall rep s, Inv s -> bk s = BEpoll ->
+  forall x e, In (x, e) (ep_filter [] (ereg s) rep) -> x <> 0 -> has_in e = true ->
+  exists t n, tr (dispatch_epoll rep s) = t ++ tr s /\ In (ERead x n) t.
+Proof.
+  intros rep s I B x e Hin Hx He. unfold dispatch_epoll.
+  set (s1 := set_erdl _ s).
+  assert (I1 : Inv s1) by (eapply Inv_view; [apply sv_set_erdl|auto]).
+  destruct (ep_filter_spec rep [] (ereg s)) as [ND Hr].
+  apply (read_ep_walk (ep_filter [] (ereg s) rep) s1 I1 B ND); auto.
+  intros z Hz. apply Hr; auto.
+Qed.
+
+(* the three isolation statements together *)
+Lemma iso_all :
+  (forall y s, cadded (cx s y) = false -> y <> 0 ->
+     let s' := do_act (AAdd y) s in
+     (forall x, x <> y -> cx s' x = cx s x) /\ cq (cx s' y) = cq (cx s y) /\
+     ((tr s' = EAct (AAdd y) 0 :: tr s /\ clist s' = clist s ++ [y] /\
+       (exists l, parr s' = parr s ++ l) /\ (forall x, In x (sset s) -> In x (sset s')) /\
+       (exists l, ereg s' = ereg s ++ l) /\ (exists l, erdl s' = erdl s ++ l)) \/
+      (tr s' = EAct (AAdd y) 2 :: tr s /\ tables_same s s'))) /\
+  (forall l i p, nth_error l i = Some p ->
+     Permutation l (p :: poll_remove i l) /\
+     (1 <= i -> hd_error (poll_remove i l) = hd_error l) /\
+     (forall j, j < i -> nth_error (poll_remove i l) j = nth_error l j)) /\
+  (forall rep n s, Nat.ltb 0 n = true -> no_stale (dispatch_select rep n s)) /\
+  (forall b sc os s, runs b sc os = (s, false) ->
+     NoDup (clist s) /\
+     (b = BPoll -> hd_error (map fst (parr s)) = Some 0 /\ Permutation (map fst (parr s)) (0 :: clist s)) /\
+     (b = BEpoll -> forall x, In x (ereg s) -> x = 0 \/ In x (clist s))).
+Proof.
+  split; [exact iso_add|]. split; [exact iso_poll_remove|]. split; [exact iso_select_rebuild|].
+  intros b sc os s R. destruct (reach_Inv _ _ _ _ R) as [I B]. split; [apply I|]. split.
+  - intros E. apply I. congruence.
+  - intros E. apply I. congruence.
+Qed.
+
+(* non-vacuity *)
+Example iso_poll_remove_example :
+  poll_remove 1 [(0, 0); (5, 1); (6, 0); (7, 3)] = [(0, 0); (7, 3); (6, 0)] /\
+  poll_remove 3 [(0, 0); (5, 1); (6, 0); (7, 3)] = [(0, 0); (5, 1); (6, 0)].
+Proof. vm_compute. auto. Qed.
+
+(* capacity rejection happens (poll, hints_max_fd = 1) and changes nothing *)
+Definition cap_script : script := mkScr 1 [(1, KPipe); (2, KPipe)] [[AAdd 1; AWrite 1 3; AAdd 2]] [].
+Example iso_reject_example :
+  let s := start BPoll cap_script in
+  clist s = [1] /\ map fst (parr s) = [0; 1] /\ cq (cx s 1) = 3 /\ hd EWake (tr s) = EAct (AAdd 2) 2 /\
+  clist (start BSelect cap_script) = [1; 2].
+Proof. vm_compute. auto. Qed.
+
+(* the poll back-end's double decrement: context 2 (slot 2) reports POLLIN|POLLHUP and uses up
+   n = 2, the walk stops before slot 1 although context 1 was reported readable; slot 1 is untouched
+   and the next poll() reports it again *)
+Definition skip_script : script :=
+  mkScr 4 [(1, KPipe); (2, KPipe)] [[AAdd 1; AAdd 2; AWrite 1 3; AWrite 2 4; APclose 2]] [].
+Example poll_double_decrement_skips_one_pass :
+  let s := start BPoll skip_script in
+  let s1 := iter (kern_o s) s in
+  let s2 := iter (kern_o s1) s1 in
+  kern s = [(1, 1); (2, 3)] /\
+  rev (tr s1) = rev (tr s) ++ [ERead 2 4; EClose 2] /\
+  kern s1 = [(1, 1)] /\
+  rev (tr s2) = rev (tr s1) ++ [ERead 1 3].
+Proof. vm_compute. auto. Qed.
